@@ -131,8 +131,10 @@ JoinCheck(e, ln) ==
   IF e.res # "ok" THEN <<>>
   ELSE IF BadValue(e.rows) THEN V(Tag(e, ".value"), ln, <<e.ev>>)
   ELSE LET want == JoinAnswerBag(e.ts, e.on, e.filt, e.proj) IN
-       IF BagOfSeq(e.rows) # want THEN V(Tag(e, ".rows"), ln, [stmt |-> <<e.ts, e.on, e.filt, e.proj>>, plan |-> e.plan,
-                                                             got |-> BagOfSeq(e.rows), want |-> want]) ELSE <<>>
+       (IF BagOfSeq(e.rows) # want THEN V(Tag(e, ".rows"), ln, [stmt |-> <<e.ts, e.on, e.filt, e.proj>>, plan |-> e.plan,
+                                                             got |-> BagOfSeq(e.rows), want |-> want]) ELSE <<>>)
+       \o (IF "JOINREF" \in DOMAIN IOEnv /\ want # JoinAnswerBagRef(e.ts, e.on, e.filt, e.proj)
+             THEN V("oracle.join", ln, <<e.ts, e.on, e.filt, e.proj>>) ELSE <<>>)
 
 TInit == Init /\ l = 1 /\ viol = <<>> /\ hadCrash = FALSE /\ hasBtree = FALSE /\ bt = BtInit
 
